@@ -122,8 +122,12 @@ def _wrap_path_func(name, real, idxs):
             nm = "os.open"
             flags = a[1] if len(a) > 1 else k.get("flags", 0)
             mode = "w" if flags & (os.O_WRONLY | os.O_RDWR | os.O_CREAT | os.O_TRUNC | os.O_APPEND) else "r"
-        ctx.fire(Event(nm, paths, mode))
+        ev = Event(nm, paths, mode)
+        ctx.fire(ev)
         res = real(*a, **k)
+        hook = getattr(ctx, "after_path_op", None)
+        if hook is not None and getattr(_tls, "depth", 0) == 0:
+            hook(ev)          # may raise: "the operation took effect but its failure was reported" (lost reply)
         if name in ("stat", "lstat"):
             flt = getattr(ctx, "stat_filter", None)
             if flt is not None:
